@@ -103,7 +103,7 @@ class SchedFamily(Family):
                     sched = Sched(cfg)
                     if impl_rows(ops) != model_rows(model, sched):
                         model = None
-                        res.extra = {'model-inapplicable': 1}
+                        res.extra = dict(res.extra or {}, **{'model-inapplicable': 1})
                 world.clear_memo()  # a fresh reading of the unrolled circuit (history effects belong to C03)
                 un = circ.apply_modifiers()
                 world.clear_memo()
@@ -153,6 +153,14 @@ def _flatten_keeps_relations(self, prog, res):
     after flattening (a block handle keeps reporting the span of what it contains)."""
     bf = build(prog)
     bf.circ.operations
+    # Programs in which some block has content that starts before the block itself (an operation joined to the end of a shorter
+    # one) are set aside as a whole: such a block reports an end beyond its content (finding F24), and everything chained
+    # behind it inherits that.  The statement of C04 makes the same exception.
+    for comp in bf.circ.composite_operations:
+        inner = comp.decomposed_operations()
+        if inner and min(x.start_time for x in inner) < comp.start_time - 1e-9:
+            res.extra = dict(getattr(res, 'extra', None) or {}, **{'flatten-clause-set-aside': 1})
+            return
     given = []
     for i, e in enumerate(prog):
         if e[0] == 'op':
